@@ -1,5 +1,11 @@
 import importlib
 import sys
+import warnings
+
+import numpy as np
+
+warnings.filterwarnings("ignore")
+np.seterr(all="ignore")
 
 from . import core
 
